@@ -13,7 +13,7 @@ RULE = ("For each scenario (async chain with nested generator-based managers and
         "dynamic invocations of {unwrap_stackitem, FrameIterator step, elaborate_frame, context analysis, elaborate_context, "
         "unwrap_context, unwrap_context_generator} are counted in a fault-free run; an exception is injected at EVERY global "
         "invocation index (single faults) and at EVERY ordered pair of indices (second index enumerated from the run that "
-        "already has the first fault). Oracle: extract returns; each injected exception is found by identity in .error of exactly "
+        "already has the first fault); thorough: also EVERY ordered triple in the scenarios with at most 60 hook invocations. Oracle: extract returns; each injected exception is found by identity in .error of exactly "
         "the Stack that was under construction (bare if alone, inside an ExceptionGroup otherwise) and in no other Stack; all "
         "enclosing stacks keep exactly their fault-free frames, the faulted stack keeps the frames outward of the failure; "
         "format(), format_flat(), as_stdlib_summary() succeed. Plus a fixed list of non-stack inputs, and a custom item that never finishes unwrapping while its __repr__ raises (direct, through another item, awaited by a coroutine). "
@@ -28,8 +28,11 @@ def legs(tier):
     return [Leg(v, n) for v in ("3.12", "3.11", "3.10", "3.9")]
 
 
+TRIPLE_MAX_INVOCATIONS = 60
+
+
 def bounds(tier):
-    return {"fault_arity": 2}
+    return {"fault_arity": 2 if tier == "quick" else 3, "triples_for_scenarios_with_at_most_invocations": TRIPLE_MAX_INVOCATIONS}
 
 
 class Injected(Exception):
@@ -224,12 +227,16 @@ class Harness(object):
 
 
 def errors_of(st):
-    e = st.error
-    if e is None:
-        return []
-    if hasattr(e, "exceptions") and type(e).__name__ in ("ExceptionGroup", "BaseExceptionGroup"):
-        return list(e.exceptions)
-    return [e]
+    """the exceptions a Stack reports: its error, or the members of its ExceptionGroup (a member that is itself a group -
+    the errors of a nested frame lookup, re-raised together - counts through its members)"""
+    def flat(e):
+        if hasattr(e, "exceptions") and type(e).__name__ in ("ExceptionGroup", "BaseExceptionGroup"):
+            out = []
+            for x in e.exceptions:
+                out += flat(x)
+            return out
+        return [e]
+    return [] if st.error is None else flat(st.error)
 
 
 def all_stacks(st, seen=None):
@@ -620,6 +627,19 @@ def enumerate_faults(H, sc, arity, ctx, pairs_ok):
                 if problems:
                     ctx.violation({"scenario": sc.name, "faults": [i, j], "kinds": [x[1] for x in run2["injected"]]},
                                   "; ".join(problems)[:1500], "pair")
+                if arity >= 3 and N <= TRIPLE_MAX_INVOCATIONS:
+                    for k in range(j + 1, run2["n"]):
+                        run3 = H.run(sc.extract, (i, j, k))
+                        ctx.count("evaluations")
+                        ctx.count("distinct_nontrivial")
+                        ctx.count("triple_runs")
+                        problems = []
+                        if len(run3["injected"]) != 3:
+                            problems.append("harness: %d faults delivered for indices %d,%d,%d" % (len(run3["injected"]), i, j, k))
+                        judge(base, run3, problems)
+                        if problems:
+                            ctx.violation({"scenario": sc.name, "faults": [i, j, k], "kinds": [x[1] for x in run3["injected"]]},
+                                          "; ".join(problems)[:1500], "triple")
 
 
 NONSTACK = ["None", "0", "12345678901234567890", "'text'", "b'bytes'", "[1, 2]", "(1, [2])", "{'a': 1}", "{1, 2}", "object", "int",
